@@ -134,7 +134,13 @@ class StmtMixin:
             ltag = self.uni.local_types.get(key, {}).get(t.id)
             if ltag and isinstance(v, VRef) and v.elem is None:
                 was_untyped_set = v.cls == "set"
+                was_untyped_dict = v.cls == "dict"
                 v = self.mkref(v.e, ltag)
+                if was_untyped_dict and v.cls == "dict" and v.elem:
+                    # likewise an empty {} typed by a declaration: no keys
+                    self.d_set_dom(v, st, z3.K(
+                        sort_of(base_tag(v.elem[0])), z3.BoolVal(False)))
+                    st.write("$card", v.e, z3.IntVal(0), "int")
                 if was_untyped_set and v.cls == "set" and v.elem:
                     # an empty set() that is typed by a declaration: its
                     # (so far unwritten) contents are the empty set
